@@ -133,6 +133,57 @@ fn find_from_impl<'a>(file: &'a File, from: &str, to: &str) -> Option<(&'a Signa
     None
 }
 
+/// single-segment callee names in a block
+fn callee_names(b: &Block) -> Vec<String> {
+    use syn::visit::Visit;
+    struct V(Vec<String>);
+    impl<'ast> Visit<'ast> for V {
+        fn visit_expr_call(&mut self, c: &'ast ExprCall) {
+            if let Expr::Path(p) = &*c.func {
+                if p.path.segments.len() == 1 {
+                    self.0.push(p.path.segments[0].ident.to_string());
+                }
+            }
+            syn::visit::visit_expr_call(self, c);
+        }
+        fn visit_item_fn(&mut self, _: &'ast ItemFn) {}
+    }
+    let mut v = V(vec![]);
+    v.visit_block(b);
+    v.0.sort();
+    v.0.dedup();
+    v.0
+}
+
+/// translate the free (module-level) functions of the unit's files that `body` calls and that are
+/// not in the registry yet, depth first
+fn translate_free_helpers(files: &[File], reg: &mut Registry, out: &mut String, body: &Block, me: &str, depth: usize) -> Res<()> {
+    if depth > 4 {
+        return Ok(());
+    }
+    // nested fns of the body are handled by the function translator itself
+    let nested: Vec<String> = body.stmts.iter().filter_map(|s| if let Stmt::Item(Item::Fn(f)) = s { Some(f.sig.ident.to_string()) } else { None }).collect();
+    for name in callee_names(body) {
+        if name == me || nested.contains(&name) || reg.fns.contains_key(&name) {
+            continue;
+        }
+        let found = files.iter().find_map(|f| f.items.iter().find_map(|it| if let Item::Fn(g) = it { if g.sig.ident == name { Some(g) } else { None } } else { None }));
+        if let Some(g) = found {
+            translate_free_helpers(files, reg, out, &g.block, &name, depth + 1)?;
+            let mut tr = FnTr { reg, self_ty: None, ret: Ty::Unit, counter: 0, fn_prefix: name.clone(), local_fns: HashMap::new(), extra_defs: vec![] };
+            let (text, fsig) = tr.function(&g.sig, &g.block, &name).map_err(|e| format!("helper fn {}: {}", name, e))?;
+            for d in tr.extra_defs {
+                out.push_str(&d);
+                out.push('\n');
+            }
+            out.push_str(&text);
+            out.push('\n');
+            reg.fns.insert(name, fsig);
+        }
+    }
+    Ok(())
+}
+
 fn find_item<'a>(items: &'a [Item], pred: &dyn Fn(&Item) -> bool) -> Option<&'a Item> {
     for it in items {
         if pred(it) {
@@ -336,6 +387,9 @@ fn translate_unit(repo: &Path, u: &Unit, reg: &mut Registry) -> Res<String> {
                     Some(t) => format!("{}.{}", t, fname),
                     None => fname.to_string(),
                 };
+                // private module-level helpers the function calls (a nested helper moved out of the
+                // function, an extracted sub-step) are translated first, without being listed
+                translate_free_helpers(&files, reg, &mut out, body, fname, 0)?;
                 let mut tr = FnTr { reg, self_ty: tyname.map(|s| s.to_string()), ret: Ty::Unit, counter: 0, fn_prefix: lean_name.clone(), local_fns: HashMap::new(), extra_defs: vec![] };
                 let (text, fsig) = tr.function(sig, body, &lean_name).map_err(|e| format!("fn {}: {}", lean_name, e))?;
                 for d in tr.extra_defs {
